@@ -25,10 +25,10 @@ func TestMain(m *testing.M) {
 		os.Exit(childMain(p))
 	}
 	if kit.RaceMode() {
-		kit.TestMain(m, 260, 2500)
+		kit.TestMain(m, 100, 1200)
 		return
 	}
-	kit.TestMain(m, 700, 7000)
+	kit.TestMain(m, 320, 5000)
 }
 
 // Case is a set of histories on distinct documents plus the two schedules they are executed under.
@@ -128,7 +128,7 @@ func weights(registry bool, focus []string) map[string]int {
 	}
 	for k := range registryFam {
 		if registry {
-			w[k] *= 4
+			w[k] *= 8
 		} else {
 			delete(w, k)
 		}
@@ -138,13 +138,32 @@ func weights(registry bool, focus []string) map[string]int {
 
 var classes = []string{gen.ClsASCII, gen.ClsASCII, gen.ClsUnicode, gen.ClsXMLMeta, gen.ClsControl, gen.ClsEmpty, gen.ClsEdgeWS, gen.ClsTemplate, gen.ClsMarkdown, gen.ClsLong}
 
-var raceOpen = func() bool { return kit.OpenFindings("C07")[kfRace] }
+// assumeFixed is a development aid for trying a proposed fix (VERIF_REPO=<patched copy>) before the `open:` lines are
+// moved to `fixed:`: the two findings are treated as closed (no masking, no exclusion, counters read inside the goroutines).
+var assumeFixed = os.Getenv("VERIF_C07_ASSUME_FIXED") != ""
+
+var raceOpenMemo = -1
+
+func raceOpen() bool {
+	if raceOpenMemo < 0 {
+		raceOpenMemo = 0
+		if !assumeFixed && kit.OpenFindings("C07")[kfRace] {
+			raceOpenMemo = 1
+		}
+	}
+	return raceOpenMemo == 1
+}
 
 func genCase(t *rapid.T) Case {
-	k := rapid.IntRange(1, 4).Draw(t, "k")
+	k := rapid.SampledFrom([]int{1, 1, 2, 2, 3, 4}).Draw(t, "k")
 	nf := rapid.IntRange(1, 3).Draw(t, "nfocus")
 	var focus []string
 	for i := 0; i < nf; i++ {
+		if i == 0 && rapid.IntRange(0, 3).Draw(t, "perdoc") > 0 {
+			// mostly: the state the library keeps per document (image counter, header/footer parts, style registry)
+			focus = append(focus, rapid.SampledFrom([]string{"image", "hf", "style"}).Draw(t, "focus0"))
+			continue
+		}
 		focus = append(focus, rapid.SampledFrom(focusNames).Draw(t, "focus"))
 	}
 	// who may use the process-wide registries: 0 nobody, 1 one document, 2 everybody
@@ -215,6 +234,17 @@ func newRun(base string, d int) *docRun {
 }
 
 func (r *docRun) snap(withCounts bool) *Snap {
+	if r.x != nil && kit.RaceMode() {
+		// the race twin only needs the calls to happen (saving and reading are part of "working on a document");
+		// the bytes are judged by the normal binary
+		s := &Snap{}
+		kit.Try(func() { r.x.Doc.ToBytes() })
+		s.addAccessors(r.x.Doc)
+		if withCounts {
+			s.addCounts(r.x.Doc)
+		}
+		return s
+	}
 	if r.x == nil {
 		s := &Snap{}
 		s.add(Item{Name: "outcomes", Kind: "outcome", Val: strings.Join(r.outcomes, ";")})
@@ -415,19 +445,21 @@ func run(c Case) *kit.Result {
 	}
 	rich := len(kindsOf[0]) >= 3 && richB
 
-	// every document alone
+	// every document alone (the race twin judges only I3 and needs no reference)
 	alone := make([]*Snap, n)
-	for d := 0; d < n; d++ {
+	for d := 0; d < n && !race; d++ {
 		alone[d] = runAlone(base, d, c.Docs[d])
 	}
 
 	between := false
 	if !race {
-		// I0: the reference itself is a function of the calls (same history, same fresh state, twice)
-		res.Eval("C07.I0")
-		again := runAlone(base, 0, c.Docs[0])
-		for _, dl := range diffSnaps(alone[0], again, 2) {
-			res.Fail("C07.I0", "doc=0 built alone twice from the same calls differs: item=%s: %s", dl.Item, dl.Detail)
+		// I0: the reference itself is a function of the calls (same history, same fresh state, twice); every third case
+		if len(c.Order)%3 == 0 {
+			res.Eval("C07.I0")
+			again := runAlone(base, 0, c.Docs[0])
+			for _, dl := range diffSnaps(alone[0], again, 2) {
+				res.Fail("C07.I0", "doc=0 built alone twice from the same calls differs: item=%s: %s", dl.Item, dl.Detail)
+			}
 		}
 		// I1: sequential interleaving
 		snaps, sched := runInterleaved(base, c)
@@ -470,7 +502,7 @@ func run(c Case) *kit.Result {
 					res.Fail("C07.I3", "race detector report while %d goroutines worked on distinct documents: %s", n, clip(rep, 1200))
 				}
 			}
-			for d := 0; d < n; d++ {
+			for d := 0; d < n && !race; d++ {
 				res.Eval("C07.I2")
 				judge(res, "C07.I2", d, alone[d], snaps[d])
 			}
@@ -496,13 +528,20 @@ func run(c Case) *kit.Result {
 }
 
 func TestC07(t *testing.T) {
+	fs := findings
+	if kit.RaceMode() {
+		fs = findings[1:] // the twin judges I3 only; the witness of the shared-registries finding belongs to the normal binary
+	}
+	if assumeFixed {
+		fs = nil
+	}
 	kit.Main(t, kit.Spec[Case]{
 		ID: "C07", Level: "exploration",
 		Rule: "2-5 generated histories (1-12 ops each, thorough 1-25; whole document API except reopen, strings of all classes) on distinct documents, a drawn sequential interleaving and a drawn concurrent schedule (Gosched points, GOMAXPROCS 2/4/16); " +
 			"1-3 drawn focus families (images, headers/footers, styles, properties, page settings, tables, templates, markdown, TOC) are boosted in every document so that the documents use the same per-document machinery; " +
 			"non-trivial (normal binary) = A and some B have >=3 distinct op kinds and a B-op is executed strictly between two A-ops; non-trivial (race twin) = the same richness and min(3, #documents) goroutines overlapped in time (shared atomic step counter); " +
 			"distinct = distinct vector of (history length, op families used) per document",
-		Gen: genCase, Run: run, Findings: findings, Fixed: fixedCases,
+		Gen: genCase, Run: run, Findings: fs, Fixed: fixedCases,
 		Assumptions: []string{
 			"the reference for a document is the same history executed alone after VerifResetGlobals() (state of a fresh process) in the same process",
 			"lists the library writes in map-iteration order (children of w:numbering, w:footnotes, w:endnotes, w:styles, content-type and relationship lists) are compared as multisets; dcterms:created/modified are not compared; zip entry order is not compared",
